@@ -1,9 +1,11 @@
 package main
 
 import (
+	"crypto"
 	"crypto/ecdsa"
 	"crypto/ed25519"
 	"crypto/elliptic"
+	"crypto/rand"
 	"crypto/rsa"
 	"crypto/x509"
 	"encoding/pem"
@@ -43,7 +45,43 @@ cKKNVVxg/GzT2MXuSXQ843mh8yeCq6VkwIFu2vu0TRb4mfuawq/7LHo4zn80bM0J
 S0xBsgstd+bxkeXbgza7ZBk=
 -----END PRIVATE KEY-----`
 
+// leadingZeroSig returns a digest and a GENUINE RSA signature of it whose first byte is zero (so an
+// integer-minded producer would transmit it one byte short). Found by search, cached per algorithm.
+func (kr *keyring) leadingZeroSig(alg string) (digest, sig []byte) {
+	if v, ok := kr.lzs[alg]; ok {
+		return v[0], v[1]
+	}
+	var h crypto.Hash
+	switch alg[len(alg)-3:] {
+	case "256":
+		h = crypto.SHA256
+	case "384":
+		h = crypto.SHA384
+	default:
+		h = crypto.SHA512
+	}
+	for ctr := 0; ctr < 20000; ctr++ {
+		d := make([]byte, h.Size())
+		for i := range d {
+			d[i] = byte(ctr>>uint(8*(i%3))) ^ byte(i*29+len(alg))
+		}
+		var sg []byte
+		var err error
+		if alg[0] == 'R' {
+			sg, err = rsa.SignPKCS1v15(rand.Reader, kr.rsaPriv, h, d)
+		} else {
+			sg, err = rsa.SignPSS(rand.Reader, kr.rsaPriv, h, d, nil)
+		}
+		if err == nil && sg[0] == 0 {
+			kr.lzs[alg] = [2][]byte{d, sg}
+			return d, sg
+		}
+	}
+	return nil, nil
+}
+
 type keyring struct {
+	lzs       map[string][2][]byte
 	rsaPriv   *rsa.PrivateKey
 	ec        map[string]*ecdsa.PrivateKey // ES256 / ES384 / ES512
 	edPriv    ed25519.PrivateKey
@@ -60,7 +98,7 @@ func ecKey(c elliptic.Curve, d int64) *ecdsa.PrivateKey {
 }
 
 func newKeyring() (*keyring, error) {
-	kr := &keyring{ec: map[string]*ecdsa.PrivateKey{}, jwks: map[string]jwk.Key{}}
+	kr := &keyring{ec: map[string]*ecdsa.PrivateKey{}, jwks: map[string]jwk.Key{}, lzs: map[string][2][]byte{}}
 	blk, _ := pem.Decode([]byte(rsaPEM))
 	k, err := x509.ParsePKCS8PrivateKey(blk.Bytes)
 	if err != nil {
